@@ -443,3 +443,35 @@ func edgeOnPath(path cfgPath, i int) (cond ssa.Value, isTrue bool, ok bool, infe
 	}
 	return cond, isTrue, true, false
 }
+
+// paramSources: when v is a parameter of an unexported function, the values passed for it at every static call site
+// in the module (one level, then recursively up to depth 3); otherwise v itself. Lets a rule about "what is stored into
+// field F" look through a constructor helper.
+func paramSources(p *Program, v ssa.Value, depth int) []ssa.Value {
+	prm, ok := v.(*ssa.Parameter)
+	if !ok || depth > 3 {
+		return []ssa.Value{v}
+	}
+	fn := prm.Parent()
+	if fn == nil || fn.Object() == nil || fn.Object().Exported() {
+		return []ssa.Value{v}
+	}
+	pi := -1
+	for i, q := range fn.Params {
+		if q == prm {
+			pi = i
+		}
+	}
+	var out []ssa.Value
+	for _, f := range p.OwnFuncs() {
+		allInstrs(f, func(in ssa.Instruction) {
+			if c := callOf(in); c != nil && c.StaticCallee() == fn && pi >= 0 && pi < len(c.Args) {
+				out = append(out, paramSources(p, c.Args[pi], depth+1)...)
+			}
+		})
+	}
+	if len(out) == 0 {
+		return []ssa.Value{v}
+	}
+	return out
+}
